@@ -32,6 +32,7 @@ def c03(ctx):
         replay = {'meta': {k: v2 for k, v2 in c.meta.items() if k != 'paths'}, 'ops': c.ops, 'opts': list(c.opts),
                   'impl': slim(out), 'tree': PT.describe(c.tree)}
         # update and save both completed: the fresh verification (op 5) must succeed
+        c.post_files = files_of(out[2][1]) if out[2][0] == 'ok' else None
         v = out[4]
         if v[0] == 'ok' and v[1][0] == 1:
             fresh_ok += 1
